@@ -517,6 +517,100 @@ def immediate_range(rep):
                       "(-x) mod m wrong) -- only for that one operand" % (lo, hi, lo if -lo > hi else hi))
 
 
+def mask_count_bounded(rep):
+    """`(1 << c) - 1` is the mask of the low c bits only while c is below the width of the shifted operand: at c == width the shift
+    is undefined, and on the machines in question yields 1, so the mask is empty where it should be full.  bintShiftRem computes
+    the count of its top place as `n - 32*(places-1)`, which is 32 exactly when n ends on a place boundary: the lowest 64 bits of
+    2^128-1 came back as 2^32-1.  Instances: every low-bits mask of bigint.c whose count is a variable.  Rule: the count is
+    bounded below the operand's width where the mask is built -- an enclosing `if`/conditional `c < K` (K <= width) with the mask
+    on the true side (or `c >= K` with the mask on the false side), or an earlier clamp `if (c >= K) c = K2;` (K <= width,
+    K2 < width) in an enclosing block."""
+    f = common.extract("bigint.c", "runtime", all_trees=True)
+    n = 0
+    for name, fn in sorted(f.funcs.items()):
+        if "body" not in fn or not fn.get("file", "").endswith("bigint.c"):
+            continue
+        par = None
+        for m in walk(fn["body"]):
+            if not (m["k"] == "BinaryOperator" and m["op"] == "-" and const_value(m["c"][1]) == 1):
+                continue
+            sh = strip(m["c"][0])
+            if sh is None or sh["k"] != "BinaryOperator" or sh["op"] != "<<" or const_value(sh["c"][0]) != 1:
+                continue
+            cnt = strip(sh["c"][1])
+            if cnt is None or const_value(cnt) is not None:
+                continue
+            tc = sh.get("tc", "")
+            if cnt["k"] != "DeclRefExpr" or not tc[1:].isdigit():
+                raise common.AnalysisBroken("bigint.c:%d (%s): the count of the mask `%s` is not a variable, or the width of the "
+                                            "shifted operand is unknown" % (m["l"], name, render(m)[:60]))
+            width, c = int(tc[1:]), cnt["n"]
+            if par is None:
+                par = common.parents(fn["body"])
+            n += 1
+            key = "mask-count-below-width:%s:%s" % (name, c)
+
+            def bound(cond):
+                """(op, K) when cond compares the count with a constant"""
+                cond = strip(cond)
+                if cond is None or cond["k"] != "BinaryOperator" or cond["op"] not in ("<", "<=", ">", ">="):
+                    return None
+                l = strip(cond["c"][0])
+                k = const_value(cond["c"][1])
+                if l is None or l["k"] != "DeclRefExpr" or l["n"] != c or k is None:
+                    return None
+                return cond["op"], k
+
+            def below(b, side):
+                """the count is < width on that side of the test"""
+                if b is None:
+                    return False
+                op, k = b
+                if side:
+                    return (op == "<" and k <= width) or (op == "<=" and k < width)
+                return (op == ">=" and k <= width) or (op == ">" and k < width)
+
+            ok, cur = False, m
+            while not ok and cur["id"] in par:
+                p_ = par[cur["id"]]
+                if p_["k"] in ("IfStmt", "ConditionalOperator"):
+                    b = bound(p_["c"][0])
+                    in_then = any(y is cur for y in walk(p_["c"][1]))
+                    in_else = len(p_["c"]) > 2 and p_["c"][2] is not None and any(y is cur for y in walk(p_["c"][2]))
+                    ok = (in_then and below(b, True)) or (in_else and below(b, False))
+                elif p_["k"] == "CompoundStmt":
+                    for st in p_["c"]:
+                        if st is None:
+                            continue
+                        if st is cur or any(y is cur for y in walk(st)):
+                            break
+                        if st["k"] == "IfStmt" and (len(st["c"]) < 3 or st["c"][2] is None):
+                            b = bound(st["c"][0])
+                            body = st["c"][1]
+                            inner = [y for y in (body["c"] if body["k"] == "CompoundStmt" else [body]) if y is not None]
+                            if b is not None and b[0] in (">=", ">") and len(inner) == 1:
+                                a = strip(inner[0])
+                                if a is not None and a["k"] == "BinaryOperator" and a["op"] == "=":
+                                    l, k2 = strip(a["c"][0]), const_value(a["c"][1])
+                                    if l is not None and l["k"] == "DeclRefExpr" and l["n"] == c and k2 is not None \
+                                            and k2 < width and below(b, False):
+                                        ok = True
+                        elif any(y["k"] == "BinaryOperator" and y["op"] == "=" and (strip(y["c"][0]) or {}).get("n") == c
+                                 for y in walk(st)):
+                            ok = False          # assigned again after the clamp
+                cur = p_
+            if ok:
+                rep.ok("N12", key + "@%d" % m["l"], sample={"mask": render(m)[:60], "width": width})
+            else:
+                rep.violation("N12", key, "bigint.c:%d (%s)" % (m["l"], name),
+                              "`%s` is built in a %d-bit operand from the count `%s`, and nothing where it is built keeps the count "
+                              "below %d: no enclosing test `%s < K`, no earlier clamp.  When the count equals the width (in "
+                              "bintShiftRem: the requested bit count ends on a place boundary) the shift is undefined and gives an "
+                              "empty mask on x86 -- the whole top place of the result is lost (the lowest 64 bits of 2^128-1 are "
+                              "returned as 2^32-1)" % (render(m)[:60], width, c, width, c))
+    rep.floor("low-bits masks with a variable count in bigint.c", n, 2)
+
+
 def run(tier, only=None):
     rep = common.Report("C11", tier, EXPLANATION)
     c04_builtins.carry_steps(rep, rule="N1")
@@ -539,6 +633,7 @@ def run(tier, only=None):
     carry_chain(rep)
     chunk_power(rep)
     immediate_range(rep)
+    mask_count_bounded(rep)
     from . import deadstore
     deadstore.report(rep, "N9", ("dword.c", "bigint.c", "foam_i.c"), floor_units=3)
     rep.floor("C11 structural obligations", rep.obligations, 15)
